@@ -11,4 +11,4 @@ CONSTANTS
   PEERIMPL = FALSE
   XorAcc <- SymXor
   GEN = FALSE
-INVARIANTS SPErrIsAtomic StoredIsFresh SPInvolution FingerprintsStable EndpointsSwap Emit
+INVARIANTS SPErrIsAtomic StoredIsFresh SPInvolution MetaListsReversed FingerprintsStable EndpointsSwap Emit
